@@ -55,16 +55,17 @@ func c18norm(l []items.CharRange, via bool) []items.CharRange {
 }
 
 type c18out struct {
-	States              int       `json:"states"`
-	StatesViaNodes      int       `json:"states_via_nodes"`
-	LargeSetTransitions int       `json:"large_set_transitions"`
-	Transitions         int       `json:"transitions"`
-	MaxDepth            int       `json:"max_depth"`
-	Universe            int       `json:"universe"`
-	Violations          []c18viol `json:"violations"`
-	Samples             []c18viol `json:"samples"`
-	Replayed            int       `json:"replayed"`
-	NoopChecked         int       `json:"noop_checked"`
+	States               int       `json:"states"`
+	StatesViaNodes       int       `json:"states_via_nodes"`
+	LargeSetTransitions  int       `json:"large_set_transitions"`
+	SizeSweepTransitions int       `json:"size_sweep_transitions"`
+	Transitions          int       `json:"transitions"`
+	MaxDepth             int       `json:"max_depth"`
+	Universe             int       `json:"universe"`
+	Violations           []c18viol `json:"violations"`
+	Samples              []c18viol `json:"samples"`
+	Replayed             int       `json:"replayed"`
+	NoopChecked          int       `json:"noop_checked"`
 }
 
 type c18viol struct {
@@ -73,6 +74,7 @@ type c18viol struct {
 	Op   c18op   `json:"op"`
 	Old  string  `json:"old"`
 	New  string  `json:"new"`
+	K    int     `json:"universe,omitempty"` // universe the case needs when it is larger than the BFS universe
 }
 
 func c18build(path []c18op) *items.DisjunctRangeSet {
@@ -256,7 +258,7 @@ func init() {
 				for _, o1 := range ops {
 					p1 := append(append([]c18op(nil), base...), o1)
 					if msg, old, nl := c18check(base, o1, hi); msg != "" {
-						out.Violations = append(out.Violations, c18viol{Msg: msg, Path: base, Op: o1, Old: fmt.Sprint(old), New: fmt.Sprint(nl)})
+						out.Violations = append(out.Violations, c18viol{Msg: msg, Path: base, Op: o1, Old: fmt.Sprint(old), New: fmt.Sprint(nl), K: int(hi)})
 						break
 					}
 					out.Transitions++
@@ -265,13 +267,55 @@ func init() {
 						out.Transitions++
 						out.LargeSetTransitions++
 						if msg, old, nl := c18check(p1, o2, hi); msg != "" {
-							out.Violations = append(out.Violations, c18viol{Msg: msg, Path: p1, Op: o2, Old: fmt.Sprint(old), New: fmt.Sprint(nl)})
+							out.Violations = append(out.Violations, c18viol{Msg: msg, Path: p1, Op: o2, Old: fmt.Sprint(old), New: fmt.Sprint(nl), K: int(hi)})
 							break
 						}
 					}
 					if len(out.Violations) > 0 {
 						break
 					}
+				}
+			}
+		}
+		// every set size from 1 to 140 (an implementation's behaviour may depend on the size reaching a capacity: 16, 32,
+		// 64, 128 ...): the set is grown one disjoint range at a time in ascending, descending and middle-out order, each
+		// step checked; and at every size of the ascending set one insertion in front, one overlapping the first class,
+		// one into a middle gap and one spanning two classes
+		if len(out.Violations) == 0 {
+			const nMax = 140
+			hi := rune(3*nMax + 8)
+			rng := func(i int) c18op { return c18op{rune(3*i + 3), rune(3*i + 4), "raw"} }
+			orders := map[string]func(i int) int{
+				"ascending":  func(i int) int { return i },
+				"descending": func(i int) int { return nMax - 1 - i },
+				"middle-out": func(i int) int {
+					if i%2 == 0 {
+						return nMax/2 + i/2
+					}
+					return nMax/2 - 1 - i/2
+				},
+			}
+			for _, name := range []string{"ascending", "descending", "middle-out"} {
+				var path []c18op
+				for i := 0; i < nMax && len(out.Violations) == 0; i++ {
+					o := rng(orders[name](i))
+					out.Transitions++
+					out.SizeSweepTransitions++
+					if msg, old, nl := c18check(path, o, hi); msg != "" {
+						out.Violations = append(out.Violations, c18viol{Msg: msg + " (set grown in " + name + " order)", Path: path, Op: o, Old: fmt.Sprint(old), New: fmt.Sprint(nl), K: int(hi)})
+					}
+					if name == "ascending" && len(path) > 0 {
+						mid := len(path) / 2
+						for _, o2 := range []c18op{{0, 0, "raw"}, {1, 3, "raw"}, {rune(3*mid + 5), rune(3*mid + 5), "raw"}, {rune(3*mid + 4), rune(3*mid + 6), "raw"}} {
+							out.Transitions++
+							out.SizeSweepTransitions++
+							if msg, old, nl := c18check(path, o2, hi); msg != "" {
+								out.Violations = append(out.Violations, c18viol{Msg: msg, Path: path, Op: o2, Old: fmt.Sprint(old), New: fmt.Sprint(nl), K: int(hi)})
+								break
+							}
+						}
+					}
+					path = append(path, o)
 				}
 			}
 		}
